@@ -28,6 +28,7 @@ def main():
         c.finish()
     targeted_make('C04')
     c.prove()
+    chk = coqchk(c, 'C04') if not quick and not c.proof_broken else 'not run (quick tier)'
     try:
         build_driver()
     except BuildError as e:
@@ -43,7 +44,7 @@ def main():
         flav[m] = 'fixed' if s.get('InitZero') else 'custom'
 
     # ---------------- Run: vectorised vs singles vs recorded footprints
-    lines = gen_run_cases(rng, models, 5 if quick else 60, backends=('go', 'go', 'c'))
+    lines = gen_run_cases(rng, models, 5 if quick else 150, backends=('go', 'go', 'c'))
     # boundary stream: every (N,nSets,nIn) class and every T on four structurally different models
     for m in ('Sum', 'GR4J', 'Lag', 'Storage', 'RatingCurvePartition'):
         if m in models:
@@ -132,7 +133,7 @@ def main():
                      'sets vs extracted Coq footprint; non-trivial = more than one cell; plus InitialiseStates(n) vs single-cell '
                      'InitialiseStates(1) (homogeneous: must agree; heterogeneous GR4J/Lag: known finding)' % len(SHAPES))
     c.finish(extra_cov={'models': len(models), 'case_classes_hit': len(classes), 'recorded_footprint_cases': n_rec,
-                        'c_backed_cases': n_c, 'heterogeneous_init_failures': n_het_fail, 'exhaustive': False},
+                        'c_backed_cases': n_c, 'heterogeneous_init_failures': n_het_fail, 'exhaustive': False, 'coqchk': chk},
              assumptions=['array library addresses the row-major offsets its arguments denote (C01/C02; the recorder measures element addresses through the public API and validates every logged value)',
                           'kernels touch only the views they are handed (checked per run by the recorder for the explored inputs)',
                           'custom-state kernels (GR4J, Lag) return a packed state no longer than the state row (same side condition as the known finding)',
